@@ -142,8 +142,12 @@ def generate(seed, tier, index, focus):
                 steps.append({"op": "reg_cli"})
             elif r < 0.2:
                 steps.append({"op": "unreg_cli", "c": rng.randrange(8)})
-            elif r < 0.25:
+            elif r < 0.23:
                 steps.append({"op": "rereg_cli", "c": rng.randrange(8)})
+            elif r < 0.25:
+                # the same client object registered a second time (an application that calls register_client on every reconnect):
+                # it then occupies two slots of the router's list - whatever that means for deliveries to it, it is still one sender
+                steps.append({"op": "dup_reg_cli", "c": rng.randrange(8)})
             elif r < 0.42:
                 steps.append({"op": "blob", "c": rng.randrange(8), "device": rng.choice(["A", "B", "Z"]), "value": rng.choice(["Never", "Also", "Only"])})
             elif r < 0.47:
@@ -393,6 +397,13 @@ def execute_level1(scen):
                     router.register_client(c)
                     c.cid = chk.idof(c)
                     clients.append(c)
+                elif op == "dup_reg_cli":
+                    if not clients:
+                        continue
+                    c = clients[st["c"] % len(clients)]
+                    if c.cid in chk.model.clients:
+                        router.register_client(c)
+                        chk.probe("same_client_registered_twice")
                 elif op in ("unreg_cli", "rereg_cli"):
                     if not clients:
                         continue
